@@ -356,3 +356,316 @@ Proof.
   destruct a as [x|[ns|] n|]; cbn; try reflexivity.
   rewrite decon_spec. destruct (spec_clark x) as [[[ns|] n]|]; reflexivity.
 Qed.
+
+(* ------------------------------------------------------------------------------------------ *)
+(* well-formedness as a proposition                                                             *)
+Record Wf (s : astate) (T : list oid) : Prop := mkWf {
+  wf_nns : plain (st_node_ns s) = true;
+  wf_dns : plain (st_dns s) = true;
+  wf_keys : Forall (fun k => skey_ok (st_dns s) k = true) (map fst (st_store s));
+  wf_nodup : NoDup (map fst (st_store s));
+  wf_cnodup : NoDup (map fst (st_cache s));
+  wf_cache : forall q o, In (q, o) (st_cache s) -> nth_error (st_objs s) o = Some (Live q);
+  wf_T : NoDup T;
+  wf_views : forall o, In o T -> view_ok s o = true
+}.
+
+Section NoDupB.
+  Context {A : Type} (eqb : A -> A -> bool).
+  Hypothesis eqb_spec : forall a b, eqb a b = true <-> a = b.
+  Lemma existsb_eqb_in x l : existsb (eqb x) l = true <-> In x l.
+  Proof.
+    rewrite existsb_exists. split.
+    - intros [y [H1 H2]]. apply eqb_spec in H2. subst. exact H1.
+    - intros H. exists x. split; [exact H|]. apply eqb_spec. reflexivity.
+  Qed.
+  Lemma nodup_gen (nd : list A -> bool) :
+    (forall l, nd l = match l with [] => true | x :: r => (negb (existsb (eqb x) r) && nd r)%bool end) ->
+    forall l, nd l = true <-> NoDup l.
+  Proof.
+    intros Hnd. induction l as [|x r IH]; rewrite Hnd.
+    - split; [constructor|reflexivity].
+    - rewrite andb_true_iff, negb_true_iff, IH. split.
+      + intros [H1 H2]. constructor; [|exact H2]. intros H. apply existsb_eqb_in in H. rewrite H in H1. discriminate.
+      + intros H. inversion H as [|? ? Hx Hr]. subst. split; [|exact Hr].
+        destruct (existsb (eqb x) r) eqn:E; [|reflexivity]. apply existsb_eqb_in in E. contradiction.
+  Qed.
+End NoDupB.
+
+Lemma nodupb_iff l : nodupb l = true <-> NoDup l.
+Proof. apply (nodup_gen str_eqb str_eqb_eq nodupb). intros [|x r]; reflexivity. Qed.
+Lemma nodupq_iff l : nodupq l = true <-> NoDup l.
+Proof. apply (nodup_gen qname_eqb qname_eqb_eq nodupq). intros [|x r]; reflexivity. Qed.
+Lemma nodupn_iff l : nodupn l = true <-> NoDup l.
+Proof. apply (nodup_gen Nat.eqb nat_eqb_eq nodupn). intros [|x r]; reflexivity. Qed.
+
+Lemma sys_wf_iff y : sys_wf y = true <-> Wf (fst y) (snd y).
+Proof.
+  destruct y as [s T]. unfold sys_wf, attr_wf, store_shape, no_collision, cache_ok. cbn [fst snd].
+  rewrite !andb_true_iff, !forallb_forall, nodupb_iff, nodupq_iff, nodupn_iff. split.
+  - intros [[[[[[[H1 H2] H3] H4] H5] [H6 H7]] H8] H9]. constructor; try assumption.
+    + apply Forall_forall. intros k Hk. unfold skey_ok. rewrite (H3 k Hk), (H5 k Hk). reflexivity.
+    + intros q o Hin. specialize (H7 (q, o) Hin). cbn in H7.
+      destruct (nth_error (st_objs s) o) as [[q'|]|]; try discriminate. apply qname_eqb_eq in H7. subst. reflexivity.
+  - intros [H1 H2 H3 H4 H5 H6 H7 H8]. rewrite Forall_forall in H3.
+    repeat split; try assumption.
+    + intros k Hk. specialize (H3 k Hk). unfold skey_ok in H3. apply andb_true_iff in H3. apply H3.
+    + intros k Hk. specialize (H3 k Hk). unfold skey_ok in H3. apply andb_true_iff in H3. apply H3.
+    + intros [q o] Hin. cbn. rewrite (H6 q o Hin). apply qname_eqb_refl.
+Qed.
+
+(* ------------------------------------------------------------------------------------------ *)
+(* the abstraction of the store commutes with lookups and updates                                *)
+Lemma abs_store_mapk dns st : abs_store dns st = mapk (present dns) st.
+Proof. reflexivity. Qed.
+
+Section AbsStore.
+  Variables (dns : str) (st : list (str * str)) (q : qname).
+  Hypothesis Hkeys : Forall (fun k => skey_ok dns k = true) (map fst st).
+  Hypothesis Hq : plainq q = true.
+
+  Lemma abs_get : dget (abs_store dns st) (norm dns q) = aget str_eqb st (etree_key dns q).
+  Proof.
+    rewrite <- (present_etree_key dns q Hq). unfold dget. rewrite abs_store_mapk.
+    apply (mapk_aget str_eqb qname_eqb (present dns) (fun k => skey_ok dns k = true) str_eqb_eq qname_eqb_eq
+             (present_inj dns)); [exact Hkeys|apply etree_key_ok; exact Hq].
+  Qed.
+  Lemma abs_has : dhas (abs_store dns st) (norm dns q) = ahas str_eqb st (etree_key dns q).
+  Proof. unfold dhas, ahas. fold (dget (abs_store dns st) (norm dns q)). rewrite abs_get. reflexivity. Qed.
+  Lemma abs_set v : abs_store dns (aset str_eqb st (etree_key dns q) v) = dset (abs_store dns st) (norm dns q) v.
+  Proof.
+    rewrite <- (present_etree_key dns q Hq). unfold dset. rewrite !abs_store_mapk.
+    apply (mapk_aset str_eqb qname_eqb (present dns) (fun k => skey_ok dns k = true) str_eqb_eq qname_eqb_eq
+             (present_inj dns)); [exact Hkeys|apply etree_key_ok; exact Hq].
+  Qed.
+  Lemma abs_del : abs_store dns (adel str_eqb st (etree_key dns q)) = ddel (abs_store dns st) (norm dns q).
+  Proof.
+    rewrite <- (present_etree_key dns q Hq). unfold ddel. rewrite !abs_store_mapk.
+    apply (mapk_adel str_eqb qname_eqb (present dns) (fun k => skey_ok dns k = true) str_eqb_eq qname_eqb_eq
+             (present_inj dns)); [exact Hkeys|apply etree_key_ok; exact Hq].
+  Qed.
+  Lemma keys_ok_set v : Forall (fun k => skey_ok dns k = true) (map fst (aset str_eqb st (etree_key dns q) v)).
+  Proof.
+    apply Forall_forall. intros k Hk. apply (in_keys_aset str_eqb str_eqb_eq) in Hk. destruct Hk as [Hk| ->].
+    - rewrite Forall_forall in Hkeys. exact (Hkeys k Hk).
+    - apply etree_key_ok. exact Hq.
+  Qed.
+  Lemma keys_ok_del k : Forall (fun k => skey_ok dns k = true) (map fst (adel str_eqb st k)).
+  Proof.
+    apply Forall_forall. intros k' Hk. apply in_keys_adel in Hk. rewrite Forall_forall in Hkeys. exact (Hkeys k' Hk).
+  Qed.
+End AbsStore.
+
+Lemma abs_store_keys dns st : map fst (abs_store dns st) = map (present dns) (map fst st).
+Proof. unfold abs_store. rewrite !map_map. reflexivity. Qed.
+Lemma abs_store_length dns st : length (abs_store dns st) = length st.
+Proof. unfold abs_store. apply map_length. Qed.
+
+(* ------------------------------------------------------------------------------------------ *)
+(* objects and views                                                                            *)
+Definition absv (s : astate) (T : list oid) : list vstate := map (fun o => abs_obj (st_dns s) (obj_at s o)) T.
+
+Lemma abs_sys_eq s T :
+  abs_sys (s, T) = mkD (abs_store (st_dns s) (st_store s)) (absv s T) (st_dns s) (st_node_ns s).
+Proof. reflexivity. Qed.
+
+Lemma obj_at_nth s o x : nth_error (st_objs s) o = Some x -> obj_at s o = x.
+Proof. intros H. unfold obj_at. apply nth_error_nth. exact H. Qed.
+
+Lemma view_ok_lt s o : view_ok s o = true -> o < length (st_objs s).
+Proof.
+  unfold view_ok. destruct (nth_error (st_objs s) o) eqn:E; [|discriminate]. intros _.
+  apply nth_error_Some. rewrite E. discriminate.
+Qed.
+
+Lemma absv_ext s s' T :
+  st_dns s' = st_dns s -> (forall o, In o T -> obj_at s' o = obj_at s o) -> absv s' T = absv s T.
+Proof. intros Hd H. unfold absv. rewrite Hd. apply map_ext_in. intros o Ho. rewrite (H o Ho). reflexivity. Qed.
+
+Lemma nth_error_app_l {A} (l e : list A) o : o < length l -> nth_error (l ++ e) o = nth_error l o.
+Proof. intros H. apply nth_error_app1. exact H. Qed.
+
+Lemma nth_error_set_nth_same {A} (l : list A) o x : o < length l -> nth_error (set_nth l o x) o = Some x.
+Proof. revert o. induction l as [|a r IH]; intros [|o] H; cbn in *; try lia; [reflexivity|]. apply IH. lia. Qed.
+Lemma nth_error_set_nth_other {A} (l : list A) o o' x : o <> o' -> nth_error (set_nth l o x) o' = nth_error l o'.
+Proof.
+  revert o o'. induction l as [|a r IH]; intros [|o] [|o'] H; cbn; try reflexivity; try congruence.
+  apply IH. congruence.
+Qed.
+Lemma length_set_nth {A} (l : list A) o x : length (set_nth l o x) = length l.
+Proof. revert o. induction l as [|a r IH]; intros [|o]; cbn; try reflexivity. rewrite IH. reflexivity. Qed.
+
+Lemma index_of_some o T i : index_of o T = Some i -> nth_error T i = Some o /\ In o T.
+Proof.
+  revert i. induction T as [|x r IH]; cbn; [discriminate|]. intros i.
+  destruct (Nat.eqb x o) eqn:E.
+  - apply Nat.eqb_eq in E. subst. intros H. inversion H. split; [reflexivity|left; reflexivity].
+  - destruct (index_of o r) as [j|]; [|discriminate]. cbn. intros H. inversion H. subst.
+    destruct (IH j eq_refl) as [H1 H2]. split; [exact H1|right; exact H2].
+Qed.
+Lemma index_of_none o T : index_of o T = None -> ~ In o T.
+Proof.
+  induction T as [|x r IH]; cbn; [intros _ []|].
+  destruct (Nat.eqb x o) eqn:E; [discriminate|]. destruct (index_of o r); [discriminate|].
+  intros _ [H|H]; [subst; rewrite Nat.eqb_refl in E; discriminate|exact (IH eq_refl H)].
+Qed.
+
+Lemma absv_app s T o : absv s (T ++ [o]) = absv s T ++ [abs_obj (st_dns s) (obj_at s o)].
+Proof. unfold absv. rewrite map_app. reflexivity. Qed.
+Lemma absv_length s T : length (absv s T) = length T.
+Proof. apply map_length. Qed.
+Lemma absv_nth s T i o : nth_error T i = Some o -> nth_error (absv s T) i = Some (abs_obj (st_dns s) (obj_at s o)).
+Proof. intros H. unfold absv. rewrite nth_error_map, H. reflexivity. Qed.
+
+(* accessors *)
+Lemma with_q_some s a q k : acc_q (st_node_ns s) a = Some q -> with_q s a k = k q.
+Proof. intros H. unfold with_q. rewrite resolve_acc_q, H. reflexivity. Qed.
+Lemma with_k_some s T a q f :
+  acc_q (st_node_ns s) a = Some q -> with_k (abs_sys (s, T)) a f = f (norm (st_dns s) q).
+Proof. intros H. unfold with_k, acc_key. cbn. rewrite H. reflexivity. Qed.
+Lemma acc_wf_some nns a : acc_wf nns a = true -> exists q, acc_q nns a = Some q /\ plainq q = true.
+Proof. unfold acc_wf. destruct (acc_q nns a) as [q|]; [|discriminate]. intros H. exists q. auto. Qed.
+
+Lemma out_agrees_refl r : out_agrees r r.
+Proof. right. reflexivity. Qed.
+
+(* ------------------------------------------------------------------------------------------ *)
+(* preservation of well-formedness by the primitive state changes                               *)
+Lemma in_aset_inv {K V} (eqb : K -> K -> bool) (l : list (K * V)) k v x :
+  In x (aset eqb l k v) -> In x l \/ x = (k, v) \/ (exists w, In (fst x, w) l /\ snd x = v /\ eqb (fst x) k = true).
+Proof.
+  induction l as [|[a w] r IH]; cbn.
+  - intros [H|[]]. right. left. symmetry. exact H.
+  - destruct (eqb a k) eqn:E; cbn.
+    + intros [H|H]; [|left; right; exact H]. right. right. subst x. cbn. exists w. auto.
+    + intros [H|H]; [left; left; exact H|]. destruct (IH H) as [H1|[H1|[w' [H1 H2]]]]; auto.
+      right. right. exists w'. auto.
+Qed.
+
+Lemma contains_mono st k k2 v : ahas str_eqb st k = true -> ahas str_eqb (aset str_eqb st k2 v) k = true.
+Proof.
+  intros H. apply (ahas_in (V:=str) str_eqb str_eqb_eq). apply (in_keys_aset (V:=str) str_eqb str_eqb_eq). left.
+  apply (ahas_in (V:=str) str_eqb str_eqb_eq). exact H.
+Qed.
+
+Lemma NoDup_app_one {A} (l : list A) x : NoDup l -> ~ In x l -> NoDup (l ++ [x]).
+Proof.
+  induction l as [|a r IH]; cbn; intros ND Hn.
+  - constructor; [intros []|constructor].
+  - inversion ND as [|? ? Ha ND']. subst. constructor.
+    + rewrite in_app_iff. intros [H|[H|[]]]; [exact (Ha H)|]. subst. apply Hn. left. reflexivity.
+    + apply IH; [exact ND'|]. intros H. apply Hn. right. exact H.
+Qed.
+
+Lemma wf_store_set s T q v :
+  Wf s T -> plainq q = true -> Wf (with_store s (aset str_eqb (st_store s) (skey s q) v)) T.
+Proof.
+  intros [H1 H2 H3 H4 H5 H6 H7 H8] Hq. constructor; cbn; try assumption.
+  - apply keys_ok_set; assumption.
+  - apply (nodup_aset str_eqb str_eqb_eq). exact H4.
+  - intros o Ho. specialize (H8 o Ho). unfold view_ok in *. cbn.
+    destruct (nth_error (st_objs s) o) as [[q'|]|]; try assumption.
+    apply andb_true_iff in H8. destruct H8 as [Ha Hb]. rewrite Ha. cbn.
+    unfold contains_q, skey in *. cbn. apply contains_mono. exact Hb.
+Qed.
+
+Lemma wf_new_cached s T q :
+  Wf s T ->
+  Wf (with_cache (with_objs s (st_objs s ++ [Live q])) (aset qname_eqb (st_cache s) q (length (st_objs s)))) T.
+Proof.
+  intros [H1 H2 H3 H4 H5 H6 H7 H8]. constructor; cbn; try assumption.
+  - apply (nodup_aset qname_eqb qname_eqb_eq). exact H5.
+  - intros q' o Hin. apply in_aset_inv in Hin. destruct Hin as [Hin|[Hin|[w [Hin [Hv He]]]]].
+    + specialize (H6 q' o Hin). rewrite nth_error_app_l; [exact H6|]. apply nth_error_Some. rewrite H6. discriminate.
+    + inversion Hin. subst. rewrite nth_error_app2 by lia. rewrite Nat.sub_diag. reflexivity.
+    + cbn in *. subst o. apply qname_eqb_eq in He. subst q'.
+      rewrite nth_error_app2 by lia. rewrite Nat.sub_diag. reflexivity.
+  - intros o Ho. specialize (H8 o Ho). pose proof (view_ok_lt s o H8) as Hlt. unfold view_ok in *. cbn.
+    rewrite nth_error_app_l by exact Hlt. exact H8.
+Qed.
+
+Lemma getitem_cases s q :
+  contains_q s q = true ->
+  (exists o, aget qname_eqb (st_cache s) q = Some o /\ getitem_q s q = (s, RObj o)) \/
+  (aget qname_eqb (st_cache s) q = None /\
+   getitem_q s q = (with_cache (with_objs s (st_objs s ++ [Live q]))
+                               (aset qname_eqb (st_cache s) q (length (st_objs s))), RObj (length (st_objs s)))).
+Proof.
+  intros H. unfold getitem_q. rewrite H. destruct (aget qname_eqb (st_cache s) q) as [o|].
+  - left. exists o. auto.
+  - right. split; reflexivity.
+Qed.
+
+Lemma cache_live s T q o : Wf s T -> aget qname_eqb (st_cache s) q = Some o -> nth_error (st_objs s) o = Some (Live q).
+Proof. intros W H. apply (wf_cache s T W). apply (aget_some_in qname_eqb qname_eqb_eq). exact H. Qed.
+
+(* ------------------------------------------------------------------------------------------ *)
+(* refinement, operation by operation                                                           *)
+Definition finish (T : list oid) (p : astate * out) : sys * out :=
+  let '(s', r) := p in
+  match r with
+  | RObj o => let '(T', i) := track T o in ((s', T'), RObj i)
+  | _ => ((s', T), r)
+  end.
+
+Definition Good (p : sys * out) (spec : option nat -> dstate * out) : Prop :=
+  Wf (fst (fst p)) (snd (fst p)) /\
+  exists r', spec (hint_of (snd p)) = (abs_sys (fst p), r') /\ out_agrees r' (snd p).
+
+Lemma contains_abs s T q :
+  Wf s T -> plainq q = true -> dhas (abs_store (st_dns s) (st_store s)) (norm (st_dns s) q) = contains_q s q.
+Proof. intros W Hq. unfold contains_q, skey. apply abs_has; [apply (wf_keys s T W)|exact Hq]. Qed.
+
+(* an extension of the object table (and any change of the cache) is invisible to the client's views *)
+Lemma absv_grow s T objs' cache' e :
+  Wf s T -> objs' = st_objs s ++ e ->
+  absv (mkA (st_store s) (st_dns s) (st_node_ns s) cache' objs') T = absv s T.
+Proof.
+  intros W ->. apply absv_ext; [reflexivity|]. intros o Ho. unfold obj_at. cbn.
+  apply app_nth1. apply view_ok_lt. apply (wf_views s T W). exact Ho.
+Qed.
+
+Lemma get_good s T q :
+  Wf s T -> plainq q = true ->
+  Good (finish T (getitem_q s q)) (fun h => d_get (abs_sys (s, T)) (norm (st_dns s) q) h).
+Proof.
+  intros W Hq. unfold d_get. rewrite abs_sys_eq. cbn [d_dict d_views]. rewrite (contains_abs s T q W Hq).
+  destruct (contains_q s q) eqn:C.
+  2:{ unfold getitem_q. rewrite C. cbn. split; [exact W|]. eexists. split; [reflexivity|apply out_agrees_refl]. }
+  destruct (getitem_cases s q C) as [[o [Hc ->]]|[Hc ->]].
+  - (* the cached object *)
+    pose proof (cache_live s T q o W Hc) as Hl. cbn [finish]. unfold track.
+    destruct (index_of o T) as [i|] eqn:Ei.
+    + destruct (index_of_some o T i Ei) as [Hn _]. cbn [fst snd hint_of]. split; [exact W|].
+      rewrite (absv_nth s T i o Hn), (obj_at_nth s o _ Hl). cbn [abs_obj]. rewrite qname_eqb_refl.
+      eexists. split; [reflexivity|apply out_agrees_refl].
+    + pose proof (index_of_none o T Ei) as Hni. cbn [fst snd hint_of]. split.
+      * destruct W as [H1 H2 H3 H4 H5 H6 H7 H8]. constructor; try assumption.
+        -- apply NoDup_app_one; [exact H7|exact Hni].
+        -- intros o' Ho'. apply in_app_iff in Ho'. destruct Ho' as [Ho'|[<-|[]]]; [exact (H8 o' Ho')|].
+           unfold view_ok. rewrite Hl, Hq, C. reflexivity.
+      * assert (nth_error (absv s T) (length T) = None) as Hnone.
+        { apply nth_error_None. rewrite absv_length. lia. }
+        rewrite Hnone, absv_length, Nat.eqb_refl. eexists. split; [|apply out_agrees_refl].
+        rewrite abs_sys_eq, absv_app, (obj_at_nth s o _ Hl). reflexivity.
+  - (* a new object *)
+    set (n := length (st_objs s)). cbn [finish]. unfold track.
+    assert (~ In n T) as Hni.
+    { intros Hin. pose proof (view_ok_lt s n (wf_views s T W n Hin)). unfold n in *. lia. }
+    destruct (index_of n T) as [i|] eqn:Ei; [destruct (index_of_some n T i Ei); contradiction|].
+    cbn [fst snd hint_of]. pose proof (wf_new_cached s T q W) as W'. fold n in W'.
+    assert (nth_error (st_objs s ++ [Live q]) n = Some (Live q)) as Hl.
+    { unfold n. rewrite nth_error_app2 by lia. rewrite Nat.sub_diag. reflexivity. }
+    split.
+    + destruct W' as [H1 H2 H3 H4 H5 H6 H7 H8]. constructor; try assumption.
+      * apply NoDup_app_one; [exact H7|exact Hni].
+      * intros o' Ho'. apply in_app_iff in Ho'. destruct Ho' as [Ho'|[<-|[]]]; [exact (H8 o' Ho')|].
+        unfold view_ok. cbn. rewrite Hl, Hq. cbn. exact C.
+    + assert (nth_error (absv s T) (length T) = None) as Hnone.
+      { apply nth_error_None. rewrite absv_length. lia. }
+      rewrite Hnone, absv_length, Nat.eqb_refl. eexists. split; [|apply out_agrees_refl].
+      rewrite abs_sys_eq. cbn [st_store st_dns st_node_ns with_cache with_objs].
+      rewrite absv_app. f_equal. f_equal.
+      * symmetry. apply (absv_grow s T _ _ [Live q] W). reflexivity.
+      * unfold obj_at. cbn. rewrite (nth_error_nth _ _ _ Hl). reflexivity.
+Qed.
